@@ -182,6 +182,17 @@ def run(ctx):
     ctx.check(poln == {True: True, False: False}, "C08.a", "HistogramND._kwargs_from_dict:missed-unpacked",
               "(missed,) = stored one-item list exactly when present", f"unpacking per `'missed' in kwargs`: {poln}" if kn is not None else
               "HistogramND has no reader of its own: the stored one-item missed list is handed to the constructor as it is", kn.where if kn is not None else HB.where)
+    # the constructor honours an explicit dtype for given contents (the reader passes the stored dtype next to plain lists)
+    hinit = HB.methods["__init__"]
+    got_ = {}
+    for p_ in function_paths(hinit.node):
+        cs_ = dict((U(s_[1]), s_[2]) for s_ in p_ if s_[0] == "cond")
+        if cs_.get("frequencies is None") is False and "dtype is not None" in cs_ and end_kind(p_) != "raise":
+            conv = [U(s_[1].value) for s_ in p_ if s_[0] == "stmt" and isinstance(s_[1], ast.Assign) and U(s_[1].targets[0]) == "frequencies"]
+            got_.setdefault(cs_["dtype is not None"], set()).add(conv[0] if conv else None)
+    ctx.check(got_.get(True) == {"np.asarray(frequencies, dtype=dtype)"} and "np.asarray(frequencies)" in (got_.get(False) or set()), "C08.a",
+              "HistogramBase.__init__:explicit-dtype", "given contents are converted to the requested dtype; without one their own type decides",
+              f"conversion of given frequencies per `dtype is not None`: {got_}", hinit.where)
     kf = HB.methods["_kwargs_from_dict"]
     dim_if = [n for n in ast.walk(kf.node) if isinstance(n, ast.If) and "dimension" in U(n)]
     okdim = len(dim_if) == 1 and U(dim_if[0].test) == "len(kwargs['binnings']) > 2" and [U(b) for b in dim_if[0].body] == ["kwargs['dimension'] = len(kwargs['binnings'])"]
@@ -310,6 +321,7 @@ def run(ctx):
 
     from rules import wiring as _w
     _w.params_used(ctx, "C08.a", _w.funcs_of(m, "io.json", "io.util", "io.version", "io"), "io:options-read")
+    _w.same_name_forwarding(ctx, "C08.a", m, _w.funcs_of(m, "io.json", "io.util", "io.version", "io"), "io:options-forwarded")
 
     # ---- C08.d class recovery ---------------------------------------------------------------------------------------
     ctx.rule("C08.d", "types are written as type(self).__name__ and class names are unique among the subclasses", 3)
